@@ -157,6 +157,7 @@ def _maybe_keys(ds):
 
 SLICING = ('sl', 'idx', 'nparr', 'keys', 'shuffle', 'sort', 'sort_nokey', 'split', 'shard', 'efilt')
 DELEGATING = ('map', 'parmap', 'filt', 'catch', 'copy', 'fcopy', 'kzip_b')
+IDENTITY = (('tile', 1), ('cat0',), ('isp0',))
 
 
 def _slice_above_source(ops):
@@ -166,6 +167,8 @@ def _slice_above_source(ops):
     for op in reversed(ops):
         if op[0] in SLICING:
             return True
+        if op in IDENTITY:
+            continue             # tile(1), concatenate() and intersperse() with nothing return the dataset itself
         if op[0] not in DELEGATING:
             return False
     return False
